@@ -765,6 +765,32 @@ func ruleStepAccounting(c *Ctx) {
 	if n < 4 {
 		c.Undec(rule, "steps with a PeerID", "at least 4 with a ConfVerChanged method", "", fmt.Sprint(n))
 	}
+	// …and on nothing else: with "the peer found on the step's store has the step's PeerID" assumed and every other
+	// call left unknown, the accounting of an adding / promoting / demoting step evaluates to 1 (ordeval.go). A
+	// further condition (a pending peer, a role) would make the operator's own finished step look unaccounted for at
+	// the next heartbeat, and the operator is cancelled as stale.
+	k := 0
+	for _, name := range []string{"AddPeer", "AddLearner", "AddLightPeer", "AddLightLearner", "PromoteLearner", "DemoteFollower"} {
+		m := P.methodOpt(op, name, "ConfVerChanged")
+		if m == nil {
+			continue
+		}
+		pidF := P.Field(op, name, "PeerID")
+		k++
+		got, okE := ordEval(m, nil, ordAssume{cmp: func(x, y ssa.Value) (int, bool) {
+			isID := func(v ssa.Value) bool { return valueIsCallTo(v, getPeerID) }
+			isPID := func(v ssa.Value) bool { return isLoadOf(v, pidF) || fieldOfField(strip(v)) == pidF }
+			if (isID(x) && isPID(y)) || (isPID(x) && isID(y)) {
+				return 0, true
+			}
+			return 0, false
+		}}, 2)
+		c.Check(okE && got.kind == 'i' && got.i == 1, rule, "("+name+").ConfVerChanged counts its own change", "1 whenever the peer on the step's store is the step's peer — whatever else holds", P.pos(m.Pos()),
+			fmt.Sprintf("evaluated: %v, result %d: the accounting depends on more than the identity of the peer", okE, got.i))
+	}
+	if k < 4 {
+		c.Undec(rule, "single-peer steps with a ConfVerChanged method", "at least 4", "", fmt.Sprint(k))
+	}
 }
 
 func init() {
